@@ -1,3 +1,4 @@
+import BbRe.Model.Idle
 /-
 Model of the build-directory decorator stack of a worker (C12, `distinct_dirs`):
 
@@ -83,6 +84,13 @@ inductive DPC
   /-- inside `IdleInvoker.Release` (no longer a user), about to return. -/
   | releasing (get : Bool) (r : Res)
 deriving DecidableEq, Repr, Inhabited
+
+/-- The thread is a user of the invoker: between `begin` (Acquire succeeded) and
+`release` (Release entered). -/
+def DPC.user : DPC → Bool
+  | .idle => false
+  | .releasing _ _ => false
+  | _ => true
 
 /-- The thread has created `n` in the root and not yet removed it / given up. -/
 def DPC.owns : DPC → Name → Prop
@@ -188,3 +196,66 @@ inductive Reachable : State → Prop
   | step {s s' : State} (op : Op) : Reachable s → step s op = some s' → Reachable s'
 
 end BbRe.BuildDirs
+
+/-!
+## The worker: invoker and build directories together
+
+`Worker.Step` couples the two transition systems by the program order of
+`cleanBuildDirectoryCreator.GetBuildDirectory` / `cleanBuildDirectory.Close`:
+a directory thread performs `begin` only while it is a user of the invoker
+(its `Acquire` returned nil), its `Release` segment is the `release` step, and
+it never calls `Release` otherwise.  Other threads (runner calls, other
+cleaners' users) use the invoker freely.  The build-directory cleaner's effect
+(remove all children of the root) is applied when the cleaner call completes,
+*unconditionally* — theorem `C12.cleaner_excludes_directory_users` shows that
+this is always an enabled `BuildDirs.clean` step, i.e. that nobody is between
+`begin` and `release` then.
+-/
+namespace BbRe.Worker
+open BbRe
+
+structure State where
+  idle : Idle.State
+  dirs : BuildDirs.State
+
+def init : State := ⟨Idle.init, BuildDirs.init⟩
+
+/-- directory operations that involve neither the invoker nor the cleaner -/
+def plainDirOp : BuildDirs.Op → Bool
+  | .name _ => true
+  | .mkdir _ _ => true
+  | .enter _ _ => true
+  | .rmdir _ _ => true
+  | .write _ _ => true
+  | .closeChild _ _ => true
+  | .removeAll _ _ => true
+  | .finish _ _ => true
+  | _ => false
+
+inductive Step : State → State → Prop
+  /-- a segment of the invoker, except the `Release` of a directory user and the
+  completion of a cleaner call -/
+  | idle (s : State) (op : Idle.Op) (i' : Idle.State) :
+      Idle.step s.idle op = some i' →
+      (∀ t, op = .releaseEnter t → BuildDirs.DPC.user (s.dirs.pc t) = false) →
+      (∀ t ok, op ≠ .cleanDone t ok) →
+      Step s ⟨i', s.dirs⟩
+  /-- `GetBuildDirectory` got past `Acquire` -/
+  | begin (s : State) (t : Nat) (d : Option BuildDirs.Name) (d' : BuildDirs.State) :
+      s.idle.pc t = .inUse → BuildDirs.step s.dirs (.begin t d) = some d' → Step s ⟨s.idle, d'⟩
+  | dir (s : State) (op : BuildDirs.Op) (d' : BuildDirs.State) :
+      plainDirOp op = true → BuildDirs.step s.dirs op = some d' → Step s ⟨s.idle, d'⟩
+  /-- `parentDirectory.Close()`: the `Release` segment of a directory thread -/
+  | release (s : State) (t : Nat) (i' : Idle.State) (d' : BuildDirs.State) :
+      Idle.step s.idle (.releaseEnter t) = some i' → BuildDirs.step s.dirs (.release t) = some d' →
+      Step s ⟨i', d'⟩
+  /-- a cleaner call completes; if it succeeded the root is empty now -/
+  | cleanDone (s : State) (t : Nat) (ok : Bool) (i' : Idle.State) :
+      Idle.step s.idle (.cleanDone t ok) = some i' →
+      Step s ⟨i', if ok then { s.dirs with root := [] } else s.dirs⟩
+
+inductive Reachable : State → Prop
+  | init : Reachable init
+  | step {s s' : State} : Reachable s → Step s s' → Reachable s'
+
+end BbRe.Worker
